@@ -150,10 +150,41 @@ def _isolable(unit, lines, diags):
             if not ln or ln > len(lines) or lines[ln - 1].item is None:
                 return set()
             it = unit.items[lines[ln - 1].item]
-            if it.kind != 'item' or it.trusted or rustscan.parse_path(it.path_text)[-1][0] != 'fn':
+            if it.trusted or not (it.kind == 'slice' or (it.kind == 'item' and rustscan.parse_path(it.path_text)[-1][0] == 'fn')):
                 return set()
             idx.add(lines[ln - 1].item)
     return idx
+
+
+def _unbalanced_items(unit, lines):
+    from . import rustscan
+    by_item = {}
+    for l in lines:
+        if l.item is not None:
+            by_item.setdefault(l.item, []).append(l.text)
+    bad = set()
+    for i, txt in by_item.items():
+        it = unit.items[i]
+        if it.trusted or not (it.kind == 'slice' or (it.kind == 'item' and rustscan.parse_path(it.path_text)[-1][0] == 'fn')):
+            continue
+        try:
+            m = rustscan.mask('\n'.join(txt))
+        except Exception:
+            continue
+        depth = {'(': 0, '[': 0, '{': 0}
+        close = {')': '(', ']': '[', '}': '{'}
+        ok = True
+        for ch in m:
+            if ch in depth:
+                depth[ch] += 1
+            elif ch in close:
+                depth[close[ch]] -= 1
+                if depth[close[ch]] < 0:
+                    ok = False
+                    break
+        if not ok or any(depth.values()):
+            bad.add(i)
+    return bad
 
 
 def run_unit(unit_path, kf_on=True, vacuity=False, extra_args=(), timeout=900, keep=True, seed=None):
@@ -199,6 +230,15 @@ def _run_unit(unit_path, kf_on, vacuity, extra_args, timeout, keep, seed, isolat
     except UnitError as e:
         res.status = 'undecided'
         res.reason = 'extract/weave: %s' % e
+        res.wall_s = time.time() - t0
+        return res
+    # a function whose woven text has unbalanced delimiters (annotations that no longer fit a restructured body) cannot be
+    # attributed by rustc; it is isolated like any other unprocessable function instead of leaving the whole unit undecided
+    unbalanced = _unbalanced_items(unit, lines) - set(isolate)
+    if unbalanced:
+        res.status = 'undecided'
+        res.reason = 'woven text of %s has unbalanced delimiters' % ', '.join(unit.items[i].name for i in sorted(unbalanced))
+        res.isolable = unbalanced
         res.wall_s = time.time() - t0
         return res
     res.trusted = scan_trusted(lines)
